@@ -321,6 +321,7 @@ func init() {
 			ruleCRASH7(c)
 			ruleCRASH8(c)
 			ruleCRASH9(c)
+			ruleCRASH10(c)
 			ruleEMIT1(c, "CRASH-6")
 			ruleBIND2(c)
 		},
